@@ -294,6 +294,18 @@ def run_L(cx, job):
                 continue
             rule = [e if isinstance(e, str) else list(e) for e in shape]
             cx.roundtrip('L', rule, kinds, n >= 2)
+    if job['shard'] == 0:
+        # and-groups of three and four leaves with a REMOTE check in every
+        # position (every ordering of role / http / literal / path leaves),
+        # alone and next to a second alternative
+        labels2 = [('role', 0), ('http', 1), ('lit', 2), ('path', 3)]
+        kinds2 = ('role', 'http', 'lit', 'path')
+        for k in (3, 4):
+            for perm in itertools.permutations(labels2, k):
+                group = [txt(x) for x in perm]
+                for rule in ([group], [group, txt(labels2[0])],
+                             [[txt(labels2[2])], group]):
+                    cx.roundtrip('L', rule, kinds2, True)
     cx.acc.sample('L', rule)
 
 
